@@ -96,6 +96,21 @@ theorem headerFresh_enh (n : Net) (cv0 : Page) (page : Nat) (row0 : List Nat) :
     | (intro _; decide)
     | (intro h; exact absurd rfl h)
 
+/-- continuing the cached copy `q`: the array is `q`'s - or, in the repaired source shape
+    (fixes/C03-enh-zero-filler.diff, `ttxFixEnhFiller`), all entries unused when `q` was stored without X/26 data
+    (and so came back from the cache without its array) -/
+theorem headerFromCache_enh (cv q : Page) (row0 : List Nat) :
+    (headerFromCache cv q row0).1.enh = q.enh ∨
+    (ttxFixEnhFiller = true ∧ q.x26 = 0 ∧ (headerFromCache cv q row0).1.enh = enhUnused) := by
+  unfold headerFromCache
+  dsimp only
+  split
+  · rename_i h
+    right
+    simp only [Bool.and_eq_true, beq_iff_eq] at h
+    exact ⟨h.1.1.1, h.1.2, rfl⟩
+  · left; rfl
+
 /-- `headerPage` after the page record got its subpage number and flags -/
 def headerPageCore (n : Net) (cv : Page) (page : Nat) (row0 : List Nat) : Page × Net × List Aux × Bool :=
   let lk := headerLookup n cv
@@ -112,7 +127,9 @@ theorem headerPage_core (n : Net) (cv0 : Page) (page subpage fl : Nat) (row0 : L
         page row0 := rfl
 
 theorem headerPageCore_enh (n : Net) (cv : Page) (page : Nat) (row0 : List Nat) :
-    (∃ q, q ∈ n.cache ∧ q.pgno = cv.pgno ∧ (headerPageCore n cv page row0).1.enh = q.enh ∧
+    (∃ q, q ∈ n.cache ∧ q.pgno = cv.pgno ∧
+          ((headerPageCore n cv page row0).1.enh = q.enh ∨
+           (ttxFixEnhFiller = true ∧ q.x26 = 0 ∧ (headerPageCore n cv page row0).1.enh = enhUnused)) ∧
           (headerPageCore n cv page row0).1.x26 = q.x26) ∨
     ((headerPageCore n cv page row0).1.x26 = 0 ∧
       ((headerPageCore n cv page row0).1.function = FN_LOP → (headerPageCore n cv page row0).1.enh = enhUnused)) := by
@@ -123,7 +140,7 @@ theorem headerPageCore_enh (n : Net) (cv : Page) (page : Nat) (row0 : List Nat) 
     left
     have hq := headerLookup_some _ _ _ hl
     refine ⟨q, hq.1, hq.2, ?_, ?_⟩
-    · rw [(headerConvert_keeps _ _ _).1]; rfl
+    · rw [(headerConvert_keeps _ _ _).1]; exact headerFromCache_enh cv q row0
     · rw [(headerConvert_keeps _ _ _).2.1]; rfl
   | none =>
     right
@@ -141,11 +158,14 @@ theorem headerPageCore_enh (n : Net) (cv : Page) (page : Nat) (row0 : List Nat) 
         exact absurd hfn (hf.2.2 hu)
 
 /-- an accepted header: the assembly page continues the cached copy `q` of that very page number
-    (then `enh` and the received-designations mask are `q`'s), or it is built from scratch (then no
+    (then `enh` and the received-designations mask are `q`'s - in the repaired source shape `ttxFixEnhFiller` a
+    copy stored without X/26 data gives an array of unused entries instead of zeros), or it is built from scratch (then no
     designation is marked and, if the page is a Level one page, every `enh` entry is unused).
     In no case does anything of the page that occupied the magazine's slot before survive in `enh`. -/
 theorem headerPage_enh (n : Net) (cv0 : Page) (page subpage fl : Nat) (row0 : List Nat) :
-    (∃ q, q ∈ n.cache ∧ q.pgno = cv0.pgno ∧ (headerPage n cv0 page subpage fl row0).1.enh = q.enh ∧
+    (∃ q, q ∈ n.cache ∧ q.pgno = cv0.pgno ∧
+          ((headerPage n cv0 page subpage fl row0).1.enh = q.enh ∨
+           (ttxFixEnhFiller = true ∧ q.x26 = 0 ∧ (headerPage n cv0 page subpage fl row0).1.enh = enhUnused)) ∧
           (headerPage n cv0 page subpage fl row0).1.x26 = q.x26) ∨
     ((headerPage n cv0 page subpage fl row0).1.x26 = 0 ∧
       ((headerPage n cv0 page subpage fl row0).1.function = FN_LOP →
